@@ -4,7 +4,10 @@
  (2) replay of every explored transition on real internal_cursors objects: new tree and every
      forwarded cursor must equal the spec's (implementation conformance);
  (3) forwarding through real scheduling operations (all primitives on shape programs, chains,
-     implicit forwarding), judged by the spec's label oracle."""
+     implicit forwarding), judged by the spec's label oracle;
+ (4) the repository's own tests, recorded: for every derivation step they perform, every node/gap/block
+     cursor of the source procedure is forwarded and judged by the same oracle with node identity as the
+     label (a statement object carried over into the derived tree is the same statement)."""
 from __future__ import annotations
 
 import collections
@@ -12,6 +15,7 @@ import collections
 from ..common import Report, main_wrapper, scratch, eff_seed, run_tlc, MachineryError, tlc_failure_excerpt
 from ..replay_cursor import replay
 from .. import fwdcheck
+from ..testrec import add_test_edges
 from .args import parse
 
 MODULES = ["harness.corpus.shapes"]
@@ -63,7 +67,16 @@ def main():
     # ---- (3)
     sel = (lambda m, p: a.only in p.name()) if a.only else None
     edges = fwdcheck.run(MODULES if quick else MODULES_THOROUGH, eff_seed(), nshards=6, select=sel,
-                         depth2=1 if quick else 4, implicit=0.25 if quick else 1.0)
+                         depth2=1 if quick else 4, implicit=0.25 if quick else 1.0, edit_cap=30 if quick else 400)
+    edit_recs = []
+    edit_stats = collections.Counter()
+    for e in edges:
+        if e["status"] == "edits":
+            edit_recs += e["edits"]
+            for k, v in e["edit_stats"].items():
+                if isinstance(v, int):
+                    edit_stats[k] += v
+    edges = [e for e in edges if e["status"] != "edits"]
     tot = collections.Counter()
     perop = collections.defaultdict(collections.Counter)
     n_acc = 0
@@ -94,6 +107,63 @@ def main():
                           {"prog": e["prog"], "op": e["op"], "args": e["args"], "mismatch": v, "text_b": e["text_b"]})
         if len(rep.cov["samples"]) < 5 and e.get("counts"):
             rep.sample({"prog": e["prog"], "op": e["op"], "args": e["args"], "cursor_verdicts": e["counts"]})
+    # ---- (4)
+    n_rec = 0
+    if not a.only:
+        with scratch() as d:
+            tedges, tother = add_test_edges(rep, a.tier, d, fwd=True, units=False, purity=False, edits=True)
+            for o in tother:
+                if o.get("kind") == "edits":
+                    edit_recs += o["edits"]
+                    for k, v in o["edit_stats"].items():
+                        if isinstance(v, int):
+                            edit_stats[k] += v
+        rtot = collections.Counter()
+        for e in tedges:
+            f = e.get("fwd") or {}
+            if "error" in f:
+                rtot["oracle_error"] += 1
+                continue
+            if f.get("cursors"):
+                n_rec += 1
+            for k, v in f.get("counts", {}).items():
+                rtot[k] += v
+            for v in f.get("viols", []):
+                rep.violation({"layer": "repo-test", "op": e["op"], "verdict": v["verdict"], "ckind": v["cursor"].split()[0],
+                               "detail": v["detail"].split(":")[0][:40]},
+                              {"test": e["prog"], "op": e["op"], "step": e["args"], "cursor": v, "text_a": e["text_a"],
+                               "text_b": e["text_b"]})
+        rep.cov["repo_test_cursor_verdicts"] = dict(rtot)
+        for k, v in rtot.items():
+            tot[k] += v
+        rep.add_cov(repo_test_edges_with_carried_statements=n_rec)
+    n_acc += n_rec
+    # ---- (5) elementary edits recorded in (3) and (4), validated against CursorEdit by TLC
+    with scratch() as d:
+        verdicts, rt = fwdcheck.validate_edits(edit_recs, d)
+    ekinds = collections.Counter()
+    n_dev = n_imgs = 0
+    for rec, v in zip(edit_recs, verdicts):
+        ekinds[rec["edit"]["k"]] += 1
+        n_imgs += len(rec["fw"])
+        dangling = [f for f in rec["fw"] if f["r"].get("t") == "!"]
+        if v["isound"] or dangling:
+            rep.violation({"layer": "edit-trace", "edit": rec["edit"]["k"],
+                           "verdict": "dangling" if dangling else "unsound-image"},
+                          {"context": rec["ctx"], "edit": rec["edit"], "tree": rec["tree"], "tlc": v,
+                           "example": (dangling or [rec["fw"][v["first"] - 1] if v["first"] else None])[0]})
+        elif not v["tree"] or v["fwd"] or v["sound"]:
+            n_dev += 1  # the code's step is sound but is not the spec's step: a deviation of the model, reported as such
+            rep.notes.append({"edit-trace deviation": rec["ctx"], "edit": rec["edit"]["k"], "tlc": v}) if n_dev <= 5 else None
+    if rt is not None:
+        states += rt.distinct
+        trans += rt.generated
+    rep.add_cov(states=rt.distinct if rt else 0, transitions=rt.generated if rt else 0,
+                recorded_elementary_edits=len(edit_recs), recorded_edit_cursor_images=n_imgs,
+                edit_trace_deviations=n_dev)
+    rep.cov["recorded_edits_by_kind"] = dict(ekinds)
+    rep.cov["edit_recorder"] = dict(edit_stats)
+    n_acc += len(edit_recs)
     rep.add_cov(traces_validated_against_impl=len(seen) + n_acc, primitive_edges=n_acc,
                 evaluations=sum(v for k, v in tot.items() if not k.startswith(("implicit", "chains"))),
                 distinct_nontrivial=len(seen) + n_acc)
@@ -104,7 +174,12 @@ def main():
                        "internal_cursors objects; (3) every accepted candidate of the full primitive x cursor x argument grid "
                        "on shape programs: all node/gap/block cursors forwarded with the real Procedure.forward and judged by "
                        "label identity; chains of two operations (across vs step-wise), implicit forwarding by insert_pass / "
-                       "unroll_loop / reorder_stmts")
+                       "unroll_loop / reorder_stmts; (4) every derivation step performed by the repository's own tests (recorded by a "
+                       "pytest plugin, no source change): all cursors of the source forwarded, label = identity of carried-over nodes; "
+                       "(5) every elementary edit (insert/replace/delete/wrap/move) that the primitives of (3) and (4) perform, recorded "
+                       "by wrappers around internal_cursors with the tree before, the tree after and the images of up to 160 cursors "
+                       "under the returned forwarding function: TLC (CursorEditTrace) takes CursorEdit's own step and requires tree "
+                       "agreement, equal forwarding and CursorEdit!Sound on the real-sized tree")
     rep.assumptions += ["block cursors: edge criterion of DESIGN C06; lossy hulls are informational",
                         "expression cursors are outside the property"]
     return rep.finish()
